@@ -46,7 +46,7 @@ package core
 //   - root.Request = sum of the max-limited requests of its children including system and default.
 //
 // Signatures. Every mismatch between a reported figure and the recomputation is a violation
-// "C01/<figure>/mismatch" that ends the case, except two that get a narrow signature because their
+// "C01/<figure>/mismatch" that ends the case, except three that get a narrow signature because their
 // cause is established (see the report of this harness and /verif/out/proposed-fixes/C01-*.diff):
 //
 //   - C01/request/old-ancestor-after-detaching-max-limited-child: request/child-request of an OLD
@@ -57,11 +57,20 @@ package core
 //     (read back from the pod cache, as the plugin does) is older than the last update of the pod
 //     (OnPodUpdate books the new requests but leaves the add-time object in the cache).
 //
+//   - C01/late-quota/event-routed-to-own-quota-while-default-holds-pod (c01_ops_test.go, lateOp and
+//     lateResolve): a pod parked in the default group because its quota did not exist yet; once the
+//     quota exists the plugin routes the pod's events by the label, so an update adds the pod to its
+//     quota while the default group still counts it (and the periodic MigratePod then adds it once
+//     more), a delete leaves it in the default group for good, a reserve/unreserve is lost.
+//
+// (The first two were fixed in /repo by 69e1989 and 6b1d919; the classification stays, it costs
+// nothing on a tree where they do not fire.)
+//
 // The classification only selects the signature, never the verdict. In the sequential unit it is
 // exact (facts of the single operation just executed). In the concurrent unit the instant of a
 // quota operation relative to the pod events is unknown, so "x was max-limited" is replaced by
 // "x may have been" (largest requests the pods of x's subtree had during the round > x's max) and
-// the deficit is followed through later re-parents of the same round. Violations with these two
+// the deficit is followed through later re-parents of the same round. Violations with these
 // signatures are reported without ending the case; the drifted manager is then replaced by a fresh
 // one fed the surviving objects (heal) so that the rest of the history stays monitored.
 
@@ -201,24 +210,24 @@ type c01Group struct {
 }
 
 type c01Pod struct {
-	slot    int
-	inc     int // incarnation (new UID on every re-creation)
-	cur     *v1.Pod
-	last    *v1.Pod // last delivered version, kept after deletion (late reserve/unreserve)
-	req     c01Vec  // requests of cur in the model's units (declared dims only matter)
-	undecl  int64   // amount of the undeclared dimension
-	np      bool
-	node    string
-	term    bool // phase Succeeded/Failed
-	inMgr   bool
-	group   string
+	slot   int
+	inc    int // incarnation (new UID on every re-creation)
+	cur    *v1.Pod
+	last   *v1.Pod // last delivered version, kept after deletion (late reserve/unreserve)
+	req    c01Vec  // requests of cur in the model's units (declared dims only matter)
+	undecl int64   // amount of the undeclared dimension
+	np     bool
+	node   string
+	term   bool // phase Succeeded/Failed
+	inMgr  bool
+	group  string
 	// reserved: the scheduler holds a reservation for the pod (ReservePod not undone by UnreservePod);
 	// in-memory scheduler state, not a property of the pod object
 	reserved bool
 	// label/parked: the pod's quota label names a group that did not exist when the pod arrived, so
 	// the plugin routed it to the default group (late-quota scenario, sequential unit)
-	label  string
-	parked bool
+	label   string
+	parked  bool
 	rv      int
 	touched bool
 }
